@@ -313,4 +313,126 @@ theorem fabs_exact (a : Nat) (ha : FinBits a) (hlt : a < 18446744073709551616) :
   | false => simp only [sgnQ, Bool.false_eq_true, if_false, one_mul]; rw [abs_of_nonneg hmq]
   | true => simp only [sgnQ, Bool.false_eq_true, if_false, if_true, one_mul, neg_one_mul]; rw [abs_neg, abs_of_nonneg hmq]
 
+/-! ## `math/round`: to nearest, halfway cases away from zero -/
+
+/-- C `round` on a rational -/
+def roundHalfAway (q : ℚ) : ℤ := if 0 ≤ q then ⌊q + 1 / 2⌋ else -⌊-q + 1 / 2⌋
+
+theorem roundHalfAway_int (z : ℤ) : roundHalfAway (z : ℚ) = z := by
+  have h : ∀ w : ℤ, ⌊(w : ℚ) + 1 / 2⌋ = w := fun w => by
+    rw [Int.floor_eq_iff]; constructor <;> linarith
+  unfold roundHalfAway
+  split
+  · exact h z
+  · have := h (-z); push_cast at this; rw [this]; ring
+
+theorem roundHalfAway_signed (neg : Bool) (q : ℚ) (hq : 0 < q) :
+    roundHalfAway (sgnQ neg * q) = (if neg then -⌊q + 1 / 2⌋ else ⌊q + 1 / 2⌋) := by
+  unfold roundHalfAway
+  cases neg with
+  | false => simp only [sgnQ, Bool.false_eq_true, if_false, one_mul]; rw [if_pos hq.le]
+  | true => simp only [sgnQ, if_true, neg_one_mul]; rw [if_neg (by linarith), neg_neg]
+
+/-- ★ `round` of a finite double: a finite double, the nearest integer with halfway cases away from zero -/
+theorem round_exact (a : Nat) (ha : FinBits a) : FinBits (round a) ∧ valQ (round a) = ((roundHalfAway (valQ a) : ℤ) : ℚ) := by
+  obtain ⟨n, m, e, hd⟩ := ha
+  have hv := valQ_of_decode a n m e hd
+  obtain ⟨hm53, _, _⟩ := decode_fin_bounds a n m e hd
+  by_cases he : 0 ≤ e
+  · -- an integer already
+    have hr : round a = a := by unfold round; rw [hd]; simp only []; rw [if_pos he]
+    rw [hr]
+    refine ⟨⟨n, m, e, hd⟩, ?_⟩
+    obtain ⟨k, hk⟩ := Int.eq_ofNat_of_zero_le he
+    have : valQ a = ((smant n (m * 2 ^ k) : ℤ) : ℚ) := by
+      rw [hv, smant_eq, hk, zpow_natCast]; push_cast; ring
+    rw [this, roundHalfAway_int]
+  · obtain ⟨k, hk⟩ := Int.eq_ofNat_of_zero_le (show 0 ≤ -e by omega)
+    have he' : e = -(k : ℤ) := by omega
+    have hp : (0 : ℚ) < 2 ^ k := by positivity
+    have hpn : 0 < 2 ^ k := Nat.two_pow_pos k
+    have hk1 : 1 ≤ k := by omega
+    have hmd := Nat.div_add_mod m (2 ^ k)
+    have hrlt := Nat.mod_lt m hpn
+    by_cases hr0 : m % 2 ^ k = 0
+    · have hr : round a = a := by
+        unfold round; rw [hd]; simp only []; rw [if_neg he, hk, Int.toNat_natCast, if_pos hr0]
+      rw [hr]
+      refine ⟨⟨n, m, e, hd⟩, ?_⟩
+      have hmul : m = m / 2 ^ k * 2 ^ k := by rw [hr0] at hmd; rw [Nat.mul_comm]; omega
+      have : valQ a = ((smant n (m / 2 ^ k) : ℤ) : ℚ) := by
+        rw [hv, smant_eq, he', zpow_neg, zpow_natCast]
+        rw [show (m : ℚ) = ((m / 2 ^ k : Nat) : ℚ) * 2 ^ k by exact_mod_cast congrArg (Nat.cast (R := ℚ)) hmul]
+        field_simp
+      rw [this, roundHalfAway_int]
+    · set f := m / 2 ^ k with hf
+      set r := m % 2 ^ k with hrdef
+      set f' : Nat := if 2 ^ k ≤ 2 * r then f + 1 else f with hf'
+      have hr : round a = roundSigned n f' 1 := by
+        unfold round; rw [hd]; simp only []; rw [if_neg he, hk, Int.toNat_natCast, if_neg hr0]
+      -- f' ≤ 2^52
+      have h2k : 2 ≤ 2 ^ k := by
+        calc 2 = 2 ^ 1 := rfl
+          _ ≤ 2 ^ k := Nat.pow_le_pow_right (by decide) hk1
+      have hfle : f < 4503599627370496 := by
+        rw [hf]; apply Nat.div_lt_of_lt_mul
+        calc m < 9007199254740992 := hm53
+          _ = 2 * 4503599627370496 := by decide
+          _ ≤ 2 ^ k * 4503599627370496 := Nat.mul_le_mul_right _ h2k
+      have hf'le : f' ≤ 9007199254740992 := by rw [hf']; split <;> omega
+      have hx : sgnQ n * ((f' : ℚ) / (1 : Nat)) = sgnQ n * (f' : ℚ) := by simp
+      have hrne : rneQ (sgnQ n * (f' : ℚ)) = sgnQ n * (f' : ℚ) := by
+        have hab : |smant n f'| ≤ 9007199254740992 := by
+          have h0 : (0 : ℤ) ≤ (f' : ℤ) := Int.natCast_nonneg _
+          have h1 : (f' : ℤ) ≤ 9007199254740992 := by exact_mod_cast hf'le
+          unfold smant; cases n
+          · simp only [Bool.false_eq_true, if_false, Int.ofNat_eq_natCast]; rw [abs_of_nonneg h0]; exact h1
+          · simp only [if_true, Int.ofNat_eq_natCast]; rw [abs_neg, abs_of_nonneg h0]; exact h1
+        have := rneQ_int_le_two53 (smant n f') hab
+        rw [smant_eq] at this; exact this
+      obtain ⟨r1, r2⟩ := (roundSigned_valQ n f' 1 (by decide) (sgnQ n * (f' : ℚ)) hx.symm).1 (by
+        rw [hrne]
+        have : |sgnQ n * (f' : ℚ)| = (f' : ℚ) := by
+          cases n <;> simp [sgnQ]
+        rw [this]
+        exact lt_two1024_of_le_two55 _ (by
+          have : (f' : ℚ) ≤ 9007199254740992 := by exact_mod_cast hf'le
+          linarith))
+      rw [hr]
+      refine ⟨r1, ?_⟩
+      rw [r2, hrne]
+      -- the specification: |v| = f + r / 2^k
+      have hmq : (m : ℚ) = (f : ℚ) * 2 ^ k + r := by
+        have : m = f * 2 ^ k + r := by rw [Nat.mul_comm]; omega
+        exact_mod_cast congrArg (Nat.cast (R := ℚ)) this
+      have hq : (m : ℚ) * 2 ^ e = (f : ℚ) + (r : ℚ) / 2 ^ k := by
+        rw [he', zpow_neg, zpow_natCast, hmq]; field_simp
+      have hrq : (0 : ℚ) < (r : ℚ) := by
+        have : 0 < r := Nat.pos_of_ne_zero hr0
+        exact_mod_cast this
+      have hrlt' : (r : ℚ) < 2 ^ k := by exact_mod_cast hrlt
+      have hqpos : (0 : ℚ) < (m : ℚ) * 2 ^ e := by rw [hq]; have : (0 : ℚ) ≤ f := by positivity
+                                                   have := div_pos hrq hp; linarith
+      have hfloor : ⌊(m : ℚ) * 2 ^ e + 1 / 2⌋ = (f' : ℤ) := by
+        rw [Int.floor_eq_iff, hq, hf']
+        have hdiv_lt : (r : ℚ) / 2 ^ k < 1 := (div_lt_one hp).2 hrlt'
+        by_cases hc : 2 ^ k ≤ 2 * r
+        · rw [if_pos hc]
+          have : (1 : ℚ) / 2 ≤ (r : ℚ) / 2 ^ k := by
+            rw [div_le_div_iff₀ (by norm_num) hp]
+            have : ((2 ^ k : Nat) : ℚ) ≤ ((2 * r : Nat) : ℚ) := by exact_mod_cast hc
+            push_cast at this; linarith
+          push_cast
+          constructor <;> linarith
+        · rw [if_neg hc]
+          have : (r : ℚ) / 2 ^ k < 1 / 2 := by
+            rw [div_lt_div_iff₀ hp (by norm_num)]
+            have : ((2 * r : Nat) : ℚ) < ((2 ^ k : Nat) : ℚ) := by exact_mod_cast (Nat.lt_of_not_le hc)
+            push_cast at this; linarith
+          push_cast
+          have : (0 : ℚ) < (r : ℚ) / 2 ^ k := div_pos hrq hp
+          constructor <;> linarith
+      rw [hv, roundHalfAway_signed n _ hqpos, hfloor]
+      cases n <;> simp [sgnQ]
+
 end JanetModel.Int64.Ieee
